@@ -277,11 +277,49 @@ def _effective(status: int, rpc_error: str | None) -> int:
     return 500 if status == 200 and (rpc_error or "").strip().lower() == "true" else status
 
 
+class StepBudgetExceeded(BaseException):
+    """The request executed more lines of vgi_rpc code than any terminating handling of it could need."""
+
+
+_STEP_BUDGET = 300_000  # line events inside vgi_rpc per request; ordinary requests use a few thousand
+
+
+def _with_step_budget(fn: Any) -> Any:
+    """Run ``fn()`` while counting executed lines in vgi_rpc modules; abort deterministically past the budget.
+
+    A step count, not a clock: the verdict does not depend on machine speed.
+    """
+    import sys
+
+    count = 0
+
+    def local(frame: Any, event: str, arg: Any) -> Any:
+        nonlocal count
+        if event == "line":
+            count += 1
+            if count > _STEP_BUDGET:
+                raise StepBudgetExceeded(f"{frame.f_code.co_filename}:{frame.f_lineno}")
+        return local
+
+    def tracer(frame: Any, event: str, arg: Any) -> Any:
+        fname = frame.f_code.co_filename
+        if "vgi_rpc" in fname and "_codec" in fname:
+            return local
+        return None
+
+    old = sys.gettrace()
+    sys.settrace(tracer)
+    try:
+        return fn()
+    finally:
+        sys.settrace(old)
+
+
 def _send_inproc(cap: int | None, no_zstd: bool, body: bytes, token: str | None) -> tuple[int, bytes, str]:
     headers = {"Content-Type": ARROW_CT, "X-Request-ID": "c17"}
     if token is not None:
         headers["Content-Encoding"] = token
-    r = _tc(cap, no_zstd).simulate_post("/store", body=body, headers=headers)
+    r = _with_step_budget(lambda: _tc(cap, no_zstd).simulate_post("/store", body=body, headers=headers))
     return _effective(r.status_code, r.headers.get("x-vgi-rpc-error")), r.content, (r.headers.get("content-type") or "")
 
 
@@ -375,6 +413,17 @@ def run_case(case: dict[str, Any]) -> Outcome:
         allowed.add("same_as_uncoded")
         if unused:
             allowed.add(400)  # bytes after the first frame: rejecting them is as good as ignoring them
+            # ... and so is decoding further frames: if the concatenation of all frames passes the cap, 413 is right too
+            total_len, rest = len(ref_out), wire[len(wire) - unused :]
+            while rest and cap is not None:
+                v2, o2, u2 = F.ref_decode(named, rest, cap)
+                if v2 == "bad":
+                    break
+                total_len += len(o2)
+                if v2 == "big" or total_len > cap:
+                    allowed.add(413)
+                    break
+                rest = rest[len(rest) - u2 :] if u2 else b""
         cls = "decodable_within_cap"
 
     near = cap is not None and (abs(len(wire) - cap) <= 8 or abs(b["decoded_len"] - cap) <= 8)
@@ -401,6 +450,17 @@ def run_case(case: dict[str, Any]) -> Outcome:
         _IMPL.calls.clear()
         st0, body0, _ = _send_inproc(cap, no_zstd, ref_out, None)
         ref_resp = (st0, canonical_ipc(body0) if st0 == 200 else None, list(_IMPL.calls))
+        if st0 in (413, 415):
+            out.fail(
+                f"uncoded_body_within_cap_refused/{st0}",
+                f"{len(ref_out)} uncoded bytes with no Content-Encoding under cap={cap} were refused with {st0}",
+            )
+            return out
+
+    facts = (
+        f"cap={cap} wire={len(wire)} B decoded={b['decoded_len']} B producer={case['producer']} damage={case['mutation']}→{b['mclass']} "
+        f"Content-Encoding={token!r} zstd_disabled={no_zstd} transfer={case.get('transfer', 'length')}"
+    )
 
     _IMPL.calls.clear()
     measure = b["bomb"] and cap is not None and case.get("transfer") != "chunked"
@@ -413,20 +473,30 @@ def run_case(case: dict[str, Any]) -> Outcome:
         tracemalloc.start()
         tracemalloc.reset_peak()
         base = tracemalloc.get_traced_memory()[0]
+    hung = False
     try:
+        if case.get("transfer") == "chunked":
+            # a handler that never returns would strand the server thread: prove termination in-process first
+            _send_inproc(cap, no_zstd, wire, token)
+            _IMPL.calls.clear()
         status, body, ctype = _send(case, wire, token)
+    except StepBudgetExceeded as e:
+        hung = True
+        status, body, ctype = -1, b"", ""
+        out.fail(
+            f"request_never_completes/{b['codec']}/{case['mutation'] if b['mclass'] != 'none' else 'intact'}",
+            f"the request was still executing after {_STEP_BUDGET} lines of the codec module (stopped at {e}); {facts}",
+        )
     finally:
         if measure:
             peak = tracemalloc.get_traced_memory()[1] - base
             tracemalloc.stop()
+    if hung:
+        out.note = {"status": "never completes", "wire": len(wire), "class": cls}
+        return out
     calls = list(_IMPL.calls)
     out.note = {"status": status, "wire": len(wire), "decoded": b["decoded_len"], "cap": cap, "token": token, "class": cls, "calls": len(calls)}
     sig = f"{cls}/{b['codec'] if named == b['codec'] or named is None else 'labelled_' + str(named)}/{(case['mutation'] if b['mclass'] != 'none' else 'intact') if not b['lie'] else 'fcs_' + case['fcs']}"
-    facts = (
-        f"cap={cap} wire={len(wire)} B decoded={b['decoded_len']} B producer={case['producer']} damage={case['mutation']}→{b['mclass']} "
-        f"Content-Encoding={token!r} zstd_disabled={no_zstd} transfer={case.get('transfer', 'length')}"
-    )
-
     want = sorted(str(a) for a in allowed)
     if named == "identity" and token is not None and norm and status == 415 and 415 not in allowed:
         out.fail(
@@ -537,6 +607,10 @@ _REGRESSIONS = [
     _mk(65536, False, {"kind": "bomb", "mib": 8}, "decoded", 0, "gzip_zlib", 9, "honest", "none", 0, "canonical"),
     _mk(65536, True, _V, "decoded", -300, "zstd_oneshot", None, "honest", "none", 0, "canonical"),
     _mk(65536, False, _V, "decoded", -300, "gzip_zlib", None, "honest", "none", 0, "br"),
+    _mk(200000, False, _V, "decoded", -9, "gzip_zlib", None, "honest", "trailing", 3, "canonical"),
+    _mk(4096, False, _V, "decoded", -300, "gzip_zlib", None, "honest", "cut_trailer", 0, "canonical"),
+    _mk(4096, False, _V, "decoded", -300, "zstd_stream", None, "honest", "cut_trailer", 0, "canonical"),
+    _mk(4096, False, _V, "decoded", -300, "identity", None, "honest", "none", 0, "identity"),
 ]
 
 
